@@ -1,38 +1,53 @@
 (* C05 correspondence: sequences of installs (InstallPackages through the public
-   API) against an origin whose bytes the harness controls, with the cache
-   disabled / cold / warm and within one process or across processes; compared
-   with the model and judged by the validator of Spec/PkgAuthSpec.v. *)
+   API) against an origin whose bytes the harness controls — any list of gzip
+   members with anything after them — with the cache disabled / cold / warm /
+   warm without the uncompressed tar, within one process or across processes;
+   compared with the model and judged by the validator of Spec/PkgAuthSpec.v.
+   Digests and decoders are tables the harness fills with the real SHA-1 /
+   SHA-256 / base64 / gzip / tar results for the byte strings in play; member
+   and tar bytes are replaced by ids of fixed length. *)
 From Apko Require Export Base.Prelude Model.PkgAuth Spec.PkgAuthSpec.
 Open Scope string_scope. Open Scope list_scope.
 
 Record step := {
   s_new_process : bool;              (* the process-wide memo is empty again *)
   s_cache : option nat;              (* which cache directory, None = no cache *)
+  s_drop_tar : bool;                 (* every *.dat.tar of that directory is removed before the step *)
   s_lazy : bool;                     (* tarfs (lazy install) or a plain in-memory fs (streaming install) *)
   s_handle : handle;
-  s_served : option apkfile;         (* what the origin has under the URL now *)
-  o_out : option (string * list (string * list N))   (* observed: pkgdesc recorded, regular files installed *)
+  s_served : option stream;          (* what the origin has under the URL now *)
+  o_out : option (string * list (string * list N))   (* observed: pkgdesc recorded, files readable afterwards *)
 }.
 
 Record seq_case := {
-  q_sha1 : list (list N * list N);   (* SHA-1 of the raw control members and file bodies in play *)
-  q_sha256 : list (list N * list N); (* SHA-256 of the raw data members in play *)
+  q_sha1 : list (list N * list N);   (* SHA-1 of the members and file bodies in play *)
+  q_sha256 : list (list N * list N); (* SHA-256 of the byte strings that can be taken as data section *)
   q_b64 : list (string * option (list N));   (* base64.StdEncoding.DecodeString on the checksum strings in play *)
+  q_first : list (list N * option string);                   (* first tar header name of a member *)
+  q_ctl : list (list N * option (string * list string));     (* a member read as control section *)
+  q_gunzip : list (list N * option (list N));                (* data bytes -> tar *)
+  q_untar : list (list N * option (list dfile));             (* tar -> entries *)
   q_steps : list step
 }.
 
+(* the harness prints byte strings as one lower-case hex literal *)
+Definition hexval (c : ascii) : N := let n := N_of_ascii c in if (n <? 58)%N then (n - 48)%N else (n - 87)%N.
+Fixpoint hx (s : string) : list N :=
+  match s with String a (String b r) => (16 * hexval a + hexval b)%N :: hx r | _ => [] end.
+
 Definition table (t : list (list N * list N)) (x : list N) : list N :=
   match assoc_b x t with Some d => d | None => [] end.
+Definition otable {A} (t : list (list N * option A)) (x : list N) : option A :=
+  match assoc_b x t with Some r => r | None => None end.
 
 Definition file_view_eqb (a b : string * list N) : bool :=
   String.eqb (fst a) (fst b) && bytes_eqb (snd a) (snd b).
+(* the files readable after an install, as a set: the harness reads names back in an order of its own *)
+Definition files_eqb (a b : list (string * list N)) : bool :=
+  Nat.eqb (List.length a) (List.length b) &&
+  forallb (fun p => existsb (file_view_eqb p) b) a && forallb (fun p => existsb (file_view_eqb p) a) b.
 Definition out_eqb (a b : string * list (string * list N)) : bool :=
-  String.eqb (fst a) (fst b) && list_eqb file_view_eqb (snd a) (snd b).
-
-(* the regular files a data section installs *)
-Definition reg_view (d : data) : list (string * list N) :=
-  List.flat_map (fun f => match f_kind f with FReg => [(f_name f, f_body f)] | _ => [] end)
-    (data_section (d_files d)).
+  String.eqb (fst a) (fst b) && files_eqb (snd a) (snd b).
 
 Fixpoint get_cache (i : nat) (cs : list (nat * cache)) : cache :=
   match cs with [] => empty_cache | (j, c) :: r => if Nat.eqb i j then c else get_cache i r end.
@@ -42,39 +57,58 @@ Section Run.
   Let sha1 := table (q_sha1 c).
   Let sha256 := table (q_sha256 c).
   Let b64 := fun s => match assoc_s s (q_b64 c) with Some r => r | None => None end.
-  Let candidates : list apkfile :=
-    List.flat_map (fun s => match s_served s with Some a => [a] | None => [] end) (q_steps c).
+  Let first_name := otable (q_first c).
+  Let ctl_view := otable (q_ctl c).
+  Let gunzip := otable (q_gunzip c).
+  Let untar := otable (q_untar c).
 
-  (* what was installed, identified among everything the origin ever served:
-     every (control, data) pair whose recorded description and installed regular
-     files are the observed ones. Several data sections can install the same
-     bytes (they differ in recorded checksums only); the installed BYTES are
-     authenticated when one such explanation satisfies the chain. *)
+  (* what was installed, identified among everything in play: every (control member,
+     data bytes) pair whose recorded description and installable files are the
+     observed ones. Several data sections can install the same bytes (they differ
+     in recorded checksums only); the installed BYTES are authenticated when one
+     such explanation satisfies the chain. *)
   Definition explanations (o : string * list (string * list N)) : list exp :=
-    List.flat_map (fun a1 =>
-      if String.eqb (c_desc (a_ctl a1)) (fst o) then
-        List.flat_map (fun a2 =>
-          if list_eqb file_view_eqb (reg_view (a_dat a2)) (snd o)
-          then [{| x_ctl := a_ctl a1; x_dat := a_dat a2; x_ctl_hash := [] |}] else []) candidates
-      else []) candidates.
+    List.flat_map (fun craw =>
+      match mk_ctl ctl_view craw with
+      | Some ctl =>
+          if String.eqb (c_desc ctl) (fst o) then
+            List.flat_map (fun gz =>
+              match dat_view gunzip untar gz with
+              | Some fs =>
+                  match install_files false [] (data_section fs) with
+                  | Some files =>
+                      if files_eqb files (snd o)
+                      then [{| x_ctl := ctl; x_ctl_file := craw; x_dat := {| d_raw := gz; d_files := fs |}; x_ctl_hash := [] |}]
+                      else []
+                  | None => []
+                  end
+              | None => []
+              end) (List.map fst (q_gunzip c))
+          else []
+      | None => []
+      end) (List.map fst (q_ctl c)).
 
   Definition judge (sfx : string) (h : handle) (o : string * list (string * list N)) : list string :=
     match explanations o with
     | [] => ["viol:installed-content-from-nowhere"]
     | x :: more =>
-        if existsb (fun y => match chain_tags sha1 sha256 b64 sfx h y with [] => true | _ => false end) (x :: more)
-        then [] else chain_tags sha1 sha256 b64 sfx h x
+        if existsb (fun y => match chain_tags sha1 sha256 b64 ctl_view gunzip untar sfx h y with [] => true | _ => false end) (x :: more)
+        then [] else chain_tags sha1 sha256 b64 ctl_view gunzip untar sfx h x
     end.
 
   (* model state: memo, caches; spec-side bookkeeping: the (URL, checksum string)
      pairs expanded with a cache configured since the process started *)
   Definition same_req (a b : handle) : bool :=
     String.eqb (h_url a) (h_url b) && String.eqb (h_chk a) (h_chk b).
-  (* names the mechanism when an install breaks the chain after an earlier
-     request of the same process: a different request with the same memo key, or
-     the same URL with another checksum (what fix 9459281 closed) *)
+  (* names the mechanism when an install breaks the chain: a stream of the shape of
+     C05-F3 was served in this history; or, after an earlier request of the same
+     process, a different request with the same joined memo key, or the same URL
+     with another checksum (what fixes d69e0fd / 9459281 closed) *)
+  Definition any_sig2 : bool :=
+    existsb (fun s => match s_served s with Some st => sig2 first_name st | None => false end) (q_steps c).
   Definition mechanism (seen : list handle) (h : handle) : string :=
-    if existsb (fun p => String.eqb (h_url p ++ "@" ++ h_chk p) (h_url h ++ "@" ++ h_chk h) && negb (same_req p h)) seen
+    if any_sig2 then "/sign-first-two-members"
+    else if existsb (fun p => String.eqb (h_url p ++ "@" ++ h_chk p) (h_url h ++ "@" ++ h_chk h) && negb (same_req p h)) seen
     then "/memo-key-ambiguous"
     else if existsb (fun p => String.eqb (h_url p) (h_url h) && negb (same_req p h)) seen
     then "/process-memo-by-url" else "".
@@ -84,8 +118,12 @@ Section Run.
     | s :: ss' =>
         let m0 := if s_new_process s then [] else m in
         let seen0 := if s_new_process s then [] else seen in
-        let k := match s_cache s with Some j => Some (get_cache j cs) | None => None end in
-        let '(r, k', m1) := expand_package sha1 sha256 b64 m0 k (s_handle s) (s_served s) in
+        let k := match s_cache s with
+                 | Some j => let kc := get_cache j cs in
+                             Some (if s_drop_tar s then {| k_ctl := k_ctl kc; k_gz := k_gz kc; k_tar := [] |} else kc)
+                 | None => None
+                 end in
+        let '(r, k', m1) := expand_package sha1 sha256 b64 first_name ctl_view gunzip untar m0 k (s_handle s) (s_served s) in
         let cs' := match s_cache s, k' with Some j, Some kc => (j, kc) :: cs | _, _ => cs end in
         let predicted :=
           match r with
@@ -95,7 +133,7 @@ Section Run.
                      end
           | XErr _ => None
           end in
-        let sfx := match s_cache s with Some _ => mechanism seen0 (s_handle s) | None => "" end in
+        let sfx := match s_cache s with Some _ => mechanism seen0 (s_handle s) | None => mechanism [] (s_handle s) end in
         let seen1 := match s_cache s with Some _ => s_handle s :: seen0 | None => seen0 end in
         tag_if (negb (option_eqb out_eqb predicted (o_out s)))
           (match predicted, o_out s with
